@@ -108,6 +108,13 @@ def run_contract(contract: dict, inputs: dict, fn=None):
     return dict(outcome='pass', result=repr(out)[:300])
 
 
+def _safe_repr(x):
+    try:
+        return repr(x)[:300]
+    except Exception as e:      # e.g. an object made with __new__ whose __init__ is the function under contract
+        return f'<{type(x).__name__} (repr failed: {type(e).__name__})>'
+
+
 def replay_model(contract: dict, model: dict):
     from .concrete import build, DtypeMap
     dm = DtypeMap()
@@ -119,16 +126,16 @@ def replay_model(contract: dict, model: dict):
             from .concrete import view
             last = None
             for cand in inputs:
-                shown = {k: repr(view(v, ()))[:300] for k, v in cand.items()}
                 last = run_contract(contract, cand)
-                last['inputs'] = shown
+                # (shown AFTER the call: printing an object may refresh its caches, which must not happen before the function under contract runs)
+                last['inputs'] = {k: _safe_repr(view(v, ())) for k, v in cand.items()}
                 if last.get('outcome') == 'fail':
                     return last
             return last or dict(outcome='spec-error', detail='no candidate inputs')
     else:
         inputs = {k: build(decode(v), dm) for k, v in model.items() if not k.startswith('__')}
     from .concrete import view
-    shown = {k: repr(view(v, ()))[:300] for k, v in inputs.items()}      # proxies: safe repr of the entry state
+    shown = {k: _safe_repr(view(v, ())) for k, v in inputs.items()}      # proxies: safe repr of the entry state
     r = run_contract(contract, inputs)
     r['inputs'] = shown
     if r.get('outcome') == 'pass' and not contract.get('concrete_inputs'):
